@@ -48,7 +48,8 @@ def to_toml(cfg):
 def results(r):
     try:
         j = json.loads(r["stdout"])
-        return [(x["test_id"], x["line_number"], x["issue_severity"], x["issue_text"]) for x in j["results"]]
+        # object addresses inside a message (C08's known finding message-embeds-object-address) are not this property's subject
+        return [(x["test_id"], x["line_number"], x["issue_severity"], impl._ADDR.sub("<AST-OBJECT>", x["issue_text"])) for x in j["results"]]
     except Exception:
         return None
 
